@@ -129,6 +129,8 @@ def run_unit(ctx, unit):
     if unit["only_oa"]:
         single = ["--only-objects-and-arrays"] + single
     variants += [
+        # the file reached through a symbolic link to its directory, inside a directory argument ("all its files will be used")
+        ("dir-link", core.Case(args + ["@D@/lk"], b"", files=[("real/inner/whole.json", data)], links=[("lk/to-real", "../real")])),
         ("alt-spelling", core.Case(alt_args, data)),
         ("alt-spelling-file", core.Case(alt_args + ["@D@/whole.json"], b"", files=[("whole.json", data)])),
         ("single-selector", core.Case(single + ["@D@/whole.json"], b"", files=[("whole.json", data)])),
@@ -197,6 +199,16 @@ def run_unit(ctx, unit):
                     return
             if [dict((k, v) for k, v in x.items() if k not in ("mi", "pf", "msc")) for x in rn] != rows:
                 st.violation("delivery:nested-scope", "extra selections changed the other columns", unit, None)
+                return
+        elif name == "dir-link":
+            try:
+                rl = parse_rows(o.stdout)
+            except jm.JsonError as e:
+                st.violation("unreadable-dir-link", str(e), unit, None)
+                return
+            if [dict(x, n=None) for x in rl] != [dict(x, n=None) for x in rows] or any(x.get("n") != ctx.scratch + "/lk/to-real/inner/whole.json" for x in rl):
+                st.violation("stdin-vs-linked-directory", "the same bytes in a file behind a linked directory give different rows", unit,
+                             {"stdin_rows": rows[:4], "rows": rl[:4]})
                 return
         elif name == "dir":
             try:
@@ -337,6 +349,16 @@ def run_unit(ctx, unit):
             st.violation("directory-row-count", "a directory of the pieces gives %d rows, the pieces alone give %d" % (len(drows), sum(len(rs) for rs in srows)), unit, None)
             return
         st.count("directory_runs")
+    if prng.random() < 0.3:
+        # arguments were given: they are the input, even if they hold no file at all; standard input is not a fallback
+        eargs = [["@D@/e1/"], ["@D@/e1/", "@D@/e2/deep/"], ["@D@/e2/"]][len(cuts) % 3]
+        efiles = [("e1/", b""), ("e2/deep/er/", b"")]
+        oe = ctx.drv.run(core.Case(args + eargs, data, files=efiles))
+        if oe.result != "ok" or oe.stdout.strip() or oe.factory_calls or oe.pulled:
+            st.violation("stdin-read-although-inputs-named", "directories without files were named as input: result %s, %d bytes of rows, stdin opened %d times (%d bytes pulled)" % (
+                oe.result, len(oe.stdout), oe.factory_calls, oe.pulled), unit, {"args": eargs, "stdout": oe.stdout[:300]})
+            return
+        st.count("empty_directory_runs")
     st.count("file_partitions", 1)
     st.see("nontrivial", (hash(data) & 0xFFFFFFF, "files%d" % len(order)))
     # noisy stream: only delivery independence and sanity of positions
